@@ -94,12 +94,12 @@ def pt_roundtrip(ctx, codec, c):
         return None
     spec = r[1]
     v = c.api_value()
-    e = lib.attempt(spec.encode, c.tname, v, check_constraints=True)
+    e = lib.attempt_timed(120, spec.encode, c.tname, v, check_constraints=True)
     if e[0] != 'ok':
         ctx.violation('%s: a value that satisfies its constraints is not encodable: %s %s' % (codec, e[1], e[2][:160]),
                       c.replay(codec=codec, kind='encode'))
         return None
-    d = lib.attempt(spec.decode, c.tname, e[1])
+    d = lib.attempt_timed(120, spec.decode, c.tname, e[1])
     if d[0] != 'ok':
         ctx.violation('%s: own encoding %s is not decodable: %s %s' % (codec, e[1].hex()[:60], d[1], d[2][:160]),
                       c.replay(codec=codec, kind='decode', data=e[1].hex()))
@@ -112,7 +112,7 @@ def pt_roundtrip(ctx, codec, c):
         ctx.violation('%s: decode(encode(v)) is a different abstract value: %s' % (codec, repr(d[1])[:200]),
                       c.replay(codec=codec, kind='roundtrip', data=e[1].hex(), decoded=repr(d[1])[:600]))
         return None
-    e2 = lib.attempt(spec.encode, c.tname, d[1], check_constraints=True)
+    e2 = lib.attempt_timed(120, spec.encode, c.tname, d[1], check_constraints=True)
     if e2[0] != 'ok':
         ctx.violation('%s: the decoded value is rejected by the encoder: %s %s' % (codec, e2[1], e2[2][:160]),
                       c.replay(codec=codec, kind='reencode-rejected', decoded=repr(d[1])[:600]))
